@@ -10,8 +10,10 @@ P = {
     "exhaustive_scope": "all operation sequences of the small-scope alphabet up to the depth given by max_size of the enum job",
     "tiers": tiers(
         quick=[{"name": "rand", "mode": "run", "count": 20000, "max_size": 100, "shards": 8},
-               {"name": "enum", "mode": "enum", "count": 400000, "max_size": 2, "shards": 1}],
+               {"name": "enum", "mode": "enum", "count": 400000, "max_size": 2, "shards": 1},
+               {"name": "fuzz", "mode": "fuzz", "seconds": 20, "shards": 4}],
         thorough=[{"name": "rand", "mode": "run", "count": 40000, "max_size": 100, "shards": 14},
-                  {"name": "enum", "mode": "enum", "count": 100000000, "max_size": 3, "shards": 16, "max_seconds": 1500}],
+                  {"name": "enum", "mode": "enum", "count": 100000000, "max_size": 3, "shards": 16, "max_seconds": 1500},
+                  {"name": "fuzz", "mode": "fuzz", "seconds": 600, "shards": 8}],
     ),
 }
